@@ -445,7 +445,8 @@ def table():
                            full=lambda: dict(state_list=[goal_state(), goal_state(t=(3, 6))], lanelets_of_goal_position={0: [1, 9], 1: [2]}),
                            alts=dict(state_list=[lambda: [goal_state(t=(2, 6))], lambda: [goal_state(), goal_state(t=(3, 7))], lambda: [goal_state(), goal_state(t=(3, 6)), goal_state()],
                                                  lambda: [goal_state(v=False)]],
-                                     lanelets_of_goal_position=[lambda: {0: [1], 1: [2]}, lambda: {0: [1, 9], 1: [3]}, lambda: {0: [1, 9]}]))
+                                     lanelets_of_goal_position=[lambda: {0: [1], 1: [2]}, lambda: {0: [1, 9], 1: [3]}, lambda: {0: [1, 9]}]),
+                           either=dict(lanelets_of_goal_position=[lambda: {0: [9, 1], 1: [2]}, lambda: {1: [2], 0: [1, 9]}, lambda: {0: [1, 9, 1], 1: [2]}]))
     T["PlanningProblem"] = dict(cls=_E("commonroad.planning.planning_problem", "PlanningProblem"),
                                 default=lambda: dict(planning_problem_id=100, initial_state=init_state(), goal_region=goal()),
                                 full=lambda: dict(planning_problem_id=100, initial_state=init_state(), goal_region=goal(2, {0: [1, 9], 1: [2]})),
@@ -562,6 +563,8 @@ def plain(o, depth=0):
             d[s] = getattr(o, s)
     drop = ("_vertices", "_shapely_polygon", "_shapely_circle", "_min", "_max", "occupancy_set", "_distance", "_inner_distance", "_polygon",
             "_buffered_polygons", "_strtee", "_lanelet_id_index_by_id", "_initial_occupancy_shape")
+    if type(o).__name__ == "Polygon":
+        drop = tuple(k for k in drop if k != "_vertices")      # a polygon's vertices are its primary data (a rectangle's are a cache)
     return (type(o).__name__, tuple(sorted(((k, plain(v, depth + 1)) for k, v in d.items() if k not in drop), key=lambda kv: kv[0])))
 
 
@@ -626,6 +629,14 @@ def _check_variant(name, label, x_mk, y_mk, expect_equal, res, case, guard=None)
         return
     if a != b:
         res.violation(f"C12|{name}|eq-asymmetric:{label}", f"x==y {a}, y==x {b}", case)
+    if expect_equal is None:
+        # the statement does not say whether the order of this list matters: either answer is accepted, but equal objects need equal hashes
+        if a and b:
+            hx, hy = _try_hash(x), _try_hash(y)
+            if hx[0] == "ok" and hy[0] == "ok" and hx[1] != hy[1]:
+                res.violation(f"C12|{name}|equal-but-hash-differs:{label}", "objects that compare equal (list order) have different hashes", case)
+        res.outcomes["list-order:" + ("equal" if (a and b) else "unequal")] += 1
+        return
     if expect_equal:
         if not (a and b):
             res.violation(f"C12|{name}|order-dependent:{label}", "same content in another insertion order compares unequal", case)
@@ -640,6 +651,130 @@ def _check_variant(name, label, x_mk, y_mk, expect_equal, res, case, guard=None)
         if hy[0] != "ok" and _try_hash(x)[0] == "ok":
             res.violation(f"C12|{name}|hash-{hy[0]}|variant:{label.split('=')[0]}", label, case)
     res.outcomes["equal" if (a and b) else "unequal"] += 1
+
+
+def _check_setter_route(name, spec, basek, res):
+    """objects reached through public setters: build the object with an alternative value of one parameter, use it (hash, compare), assign the
+    base value through the attribute's public setter; if the attribute then reads like the base object's, the two must be equal with equal hashes"""
+    import dataclasses
+    cls, attr, mkkw = spec["cls"], spec.get("attr", {}), spec[basek]
+    for p, alts in spec.get("alts", {}).items():
+        a_name = attr.get(p, p)
+        desc = getattr(cls, a_name, None)
+        is_field = dataclasses.is_dataclass(cls) and a_name in {f.name for f in dataclasses.fields(cls)}
+        if not (is_field or (isinstance(desc, property) and desc.fset is not None)):
+            continue
+        if p not in mkkw():
+            continue
+        for ai, alt in enumerate(alts):
+            case = {"class": name, "base": basek, "setter": p, "alt": ai}
+            try:
+                kw = mkkw(); kw[p] = alt()
+                y = cls(**kw)
+            except Exception:
+                continue
+            x = cls(**mkkw())
+            res.evals += 1; res.transitions += 1
+            _try_hash(y)
+            try:
+                _eq(y, x)
+                import warnings
+                with warnings.catch_warnings():
+                    warnings.simplefilter("ignore")
+                    setattr(y, a_name, mkkw()[p])
+            except Exception:
+                res.guarded += 1; res.outcomes["setter-rejects"] += 1
+                continue
+            try:
+                same = plain(getattr(y, a_name)) == plain(getattr(x, a_name))
+            except Exception:
+                same = False
+            if not same:
+                res.guarded += 1; res.outcomes["setter-without-effect(immutable attribute)"] += 1
+                continue
+            res.nontrivial += 1
+            try:
+                a, b = _eq(x, y), _eq(y, x)
+            except Exception as e:
+                res.violation(f"C12|{name}|eq-raises:{type(e).__name__}|after-setter:{p}", repr(e), case)
+                continue
+            if not (a and b):
+                res.violation(f"C12|{name}|unequal-after-setter:{p}", f"object whose {a_name} was assigned the base value compares unequal to the base object (x==y {a}, y==x {b})", case)
+            else:
+                hx, hy = _try_hash(x), _try_hash(y)
+                if hx[0] == "ok" and hy[0] == "ok" and hx[1] != hy[1]:
+                    res.violation(f"C12|{name}|equal-but-hash-differs:after-setter:{p}", "", case)
+            res.outcomes["setter-route"] += 1
+
+
+def mutator_cases():
+    """objects reached through in-place public mutators (adders / removers): (label, small object factory, mutation, directly constructed equivalent)"""
+    import numpy as np
+    from commonroad.scenario.lanelet import LaneletNetwork
+    from commonroad.planning.planning_problem import PlanningProblemSet
+    from commonroad.scenario.traffic_sign import TrafficSign
+    from commonroad.scenario.traffic_light import TrafficLight
+    from commonroad.scenario.trajectory import Trajectory
+    C = []
+    C.append(("Lanelet.add_traffic_sign_to_lanelet", lambda: lanelet(traffic_signs={10}), lambda o: o.add_traffic_sign_to_lanelet(18), lambda: lanelet(traffic_signs={10, 18})))
+    C.append(("Lanelet.add_traffic_sign_to_lanelet(first)", lambda: lanelet(), lambda o: o.add_traffic_sign_to_lanelet(18), lambda: lanelet(traffic_signs={18})))
+    C.append(("Lanelet.add_traffic_light_to_lanelet", lambda: lanelet(traffic_lights={11}), lambda o: o.add_traffic_light_to_lanelet(19), lambda: lanelet(traffic_lights={11, 19})))
+    C.append(("Lanelet.add_adjacent_area_to_lanelet", lambda: lanelet(adjacent_areas={30}), lambda o: o.add_adjacent_area_to_lanelet(38), lambda: lanelet(adjacent_areas={30, 38})))
+    C.append(("Lanelet.add_predecessor", lambda: lanelet(predecessor=[2]), lambda o: o.add_predecessor(10), lambda: lanelet(predecessor=[2, 10])))
+    C.append(("Lanelet.add_successor", lambda: lanelet(successor=[3]), lambda o: o.add_successor(11), lambda: lanelet(successor=[3, 11])))
+    C.append(("Lanelet.remove_predecessor", lambda: lanelet(predecessor=[2, 10]), lambda o: o.remove_predecessor(10), lambda: lanelet(predecessor=[2])))
+    C.append(("Lanelet.remove_successor", lambda: lanelet(successor=[3, 11]), lambda o: o.remove_successor(11), lambda: lanelet(successor=[3])))
+
+    def sign(i=10):
+        return TrafficSign(i, [sign_el()], {1}, A(1.0, 2.0))
+
+    def light(i=11):
+        return TrafficLight(i, A(3.0, 2.0), cycle())
+    C.append(("LaneletNetwork.add_lanelet", lambda: LaneletNetwork.create_from_lanelet_list([lanelet(1)]), lambda o: o.add_lanelet(lanelet(2, dx=0.5)),
+              lambda: LaneletNetwork.create_from_lanelet_list([lanelet(1), lanelet(2, dx=0.5)])))
+    C.append(("LaneletNetwork.remove_lanelet", lambda: LaneletNetwork.create_from_lanelet_list([lanelet(1), lanelet(2, dx=0.5)]), lambda o: o.remove_lanelet(2),
+              lambda: LaneletNetwork.create_from_lanelet_list([lanelet(1)])))
+
+    def net_with(sign_=False, light_=False):
+        n = LaneletNetwork.create_from_lanelet_list([lanelet(1, traffic_signs={10} if sign_ else None, traffic_lights={11} if light_ else None)])
+        return n
+    def built(sign_=False, light_=False):
+        n = LaneletNetwork.create_from_lanelet_list([lanelet(1)])
+        if sign_:
+            n.add_traffic_sign(sign(), {1})
+        if light_:
+            n.add_traffic_light(light(), {1})
+        return n
+    C.append(("LaneletNetwork.add_traffic_sign", lambda: LaneletNetwork.create_from_lanelet_list([lanelet(1)]), lambda o: o.add_traffic_sign(sign(), {1}), lambda: built(sign_=True)))
+    C.append(("LaneletNetwork.add_traffic_light", lambda: LaneletNetwork.create_from_lanelet_list([lanelet(1)]), lambda o: o.add_traffic_light(light(), {1}), lambda: built(light_=True)))
+    C.append(("PlanningProblemSet.add_planning_problem", lambda: PlanningProblemSet([pproblem(100)]), lambda o: o.add_planning_problem(pproblem(101)),
+              lambda: PlanningProblemSet([pproblem(100), pproblem(101)])))
+    C.append(("Trajectory.append_state", lambda: traj(n=2), lambda o: o.append_state(ks(t=3, x=3.0)), lambda: traj(n=3)))
+    return C
+
+
+def run_mutators(res):
+    for label, small, mutate, direct in mutator_cases():
+        case = {"class": "mutators", "mutator": label}
+        res.evals += 1; res.transitions += 1; res.states += 1
+        try:
+            y = small()
+            _try_hash(y); _eq(y, direct())
+            mutate(y)
+            x = direct()
+        except Exception as e:
+            res.violation(f"C12|{label}|mutation-raises:{type(e).__name__}", repr(e), case)
+            continue
+        res.nontrivial += 1
+        a, b = _eq(x, y), _eq(y, x)
+        if not (a and b):
+            res.violation(f"C12|{label}|unequal-after-mutation", f"object reached by the mutator compares unequal to the directly constructed one (x==y {a}, y==x {b})", case)
+        else:
+            hx, hy = _try_hash(x), _try_hash(y)
+            if hx[0] == "ok" and hy[0] == "ok" and hx[1] != hy[1]:
+                res.violation(f"C12|{label}|equal-but-hash-differs:after-mutation", "", case)
+        res.outcomes["mutator-route"] += 1
+    res.sample({"class": "mutators", "cases": [c[0] for c in mutator_cases()]}, 1)
 
 
 def run_class(name, spec, res, pairs=False):
@@ -675,6 +810,7 @@ def run_class(name, spec, res, pairs=False):
                     res.guarded += 1
                     continue
                 _check_variant(name, label, lambda: cls(**mkkw()), y_mk, False, res, case, guard)
+        _check_setter_route(name, spec, basek, res)
         for j in spec.get("joint", []):
             def y_mk(mkkw=mkkw, j=j):
                 kw = mkkw()
@@ -690,6 +826,12 @@ def run_class(name, spec, res, pairs=False):
                         kw = mkkw(); kw[p] = perm()
                         return cls(**kw)
                     _check_variant(name, p, lambda: cls(**mkkw()), y_mk, True, res, {"class": name, "base": basek, "perm": p, "i": pi})
+            for p, perms in spec.get("either", {}).items():
+                for pi, perm in enumerate(perms):
+                    def y_mk(mkkw=mkkw, p=p, perm=perm):
+                        kw = mkkw(); kw[p] = perm()
+                        return cls(**kw)
+                    _check_variant(name, p + "(list-order)", lambda: cls(**mkkw()), y_mk, None, res, {"class": name, "base": basek, "either": p, "i": pi})
             if pairs and spec.get("container"):
                 items = [(p, ai, alt) for p, alts in spec.get("alts", {}).items() for ai, alt in enumerate(alts)]
                 for (p1, a1, f1), (p2, a2, f2) in itertools.combinations(items, 2):
@@ -722,7 +864,7 @@ def run_compound(name, res):
 
 
 def class_names():
-    return sorted(table().keys()) + sorted(compound_cases().keys())
+    return sorted(table().keys()) + sorted(compound_cases().keys()) + ["mutators"]
 
 
 def describe(tier):
@@ -740,7 +882,9 @@ def run_unit(unit, tier):
     res = Result()
     n = unit["class"]
     t = table()
-    if n in t:
+    if n == "mutators":
+        run_mutators(res)
+    elif n in t:
         run_class(n, t[n], res, pairs=(tier == "thorough"))
     else:
         run_compound(n, res)
